@@ -193,7 +193,7 @@ Theorem C04_accept_sound : forall evs s, run evs = Some s ->
   commit_after_all_prewrites evs /\ secondaries_after_primary evs /\
   no_rollback_after_possible_commit evs /\ resolve_uses_reported_status evs /\
   commit_ts_bounds evs /\ expire_only_expired evs /\ told_ok_after_commit evs /\ undetermined_only_if evs /\
-  told_err_only_if evs /\ csl_only_listed evs.
+  told_err_only_if evs /\ csl_only_listed evs /\ force_only_after_nonasync evs.
 Proof. exact accept_sound. Qed.
 Print Assumptions C04_accept_sound.
 
